@@ -25,7 +25,7 @@ RULE = ('(a) channel faults: reports are produced by the real '
         'and fed to the real spawn_layer_in_subprocess through fake pipes: '
         'complete, truncated at EVERY byte offset, with 9 kinds of noise '
         'before and after, 6 kinds of stdout content, Popen raising OSError, '
-        '-v 0/1/2; (b) crash matrix with real processes: the child dies at '
+        '-v 0/1/2; with a parent stdout that cannot encode the child\'s bytes (ascii, latin-1); 7 worlds whose tests write 10 kinds of header look-alikes and bulk text through sys.stdout/sys.stderr (text and .buffer, in setUp and body) in resumed and -j children; (b) crash matrix with real processes: the child dies at '
         '{import, layer setUp, test setUp/body/tearDown, layer tearDown, every '
         'str() call on the way to and inside the report} by {_exit(0), '
         '_exit(3), SIGKILL, SIGSEGV, sys.exit(0), sys.exit(3)} under -j2 and as a resumed child; (c) conformance: stdout and '
@@ -108,7 +108,7 @@ class _Inline:
         return False
 
 
-def call_spawn(out, err, v, oserror=False):
+def call_spawn(out, err, v, oserror=False, parent_encoding=None):
     """Run the real spawn_layer_in_subprocess on given child bytes."""
     from zope.testrunner.options import get_options
     state = {'popen': 0, 'kill': 0, 'communicate': 0}
@@ -135,7 +135,7 @@ def call_spawn(out, err, v, oserror=False):
 
     class TS:
         Thread = _Inline
-    cap = runrt.Capture()
+    cap = runrt.Capture(*((parent_encoding, 'strict') if parent_encoding else ()))
     saved = (R.subprocess, R.threading, sys.stdout, sys.stderr)
     sys.stdout = sys.stderr = cap
     try:
@@ -177,6 +177,10 @@ def cases(tier, seed):
         yield ['truncate', i, None]
         yield ['noise', i, None]
     yield ['big', None, tier]
+    yield ['ascii_parent', None, None]
+    for wi in range(len(NOISE_WORLDS)):
+        for ni in range(len(TEST_NOISE)):
+            yield ['world', wi, ni]
     yield ['stdout', None, None]
     yield ['oserror', None, None]
     # (b) crash matrix
@@ -275,6 +279,35 @@ def run_case(case):
         for off in sorted(offs):
             judge('big cut at %d' % off, rep, b'', full[:off], 0, full, False, viol, dict(sig, cut=True))
             evals += 1
+    elif kind == 'ascii_parent':
+        # the parent's own stdout cannot encode what the child wrote (an
+        # ASCII / cp1252 console): whatever happens to the banner, the error
+        # for the layer must already be on record
+        rep = (3, ['t\xebst (m.T.t\xebst)'], [])
+        full = make_report(*rep)
+        inputs = [('undecodable', b'\xff\xfe invalid utf-8\n'),
+                  ('non-ascii text', 'Ger\xe4t antwortet nicht \u2013 Abbruch\n'.encode('utf-8')),
+                  ('cut in a non-ascii name', full[:len(full) - 9]),
+                  ('header only', full.split(b'\n')[0] + b'\n'),
+                  ('empty', b'')]
+        for label, err in inputs:
+            for v in (0, 1, 2):
+                for enc in ('ascii', 'latin-1'):
+                    res, failures, errors, exc, state, printed = call_spawn('caf\xe9\n'.encode('utf-8'), err, v, parent_encoding=enc)
+                    evals += 1
+                    sig = {'part': 'ascii_parent', 'v': v}
+                    d = 'parent stdout encoding %s, -v%d, child stderr %s: ' % (enc, v, label)
+                    if exc is not None and not isinstance(exc, UnicodeError):
+                        viol.append(('exception_escaped', sig, d + repr(exc)))
+                    if [e[0] for e in errors] != ['subprocess for vtw.tests.L'] or failures:
+                        viol.append(('no_single_layer_error', sig, d + 'errors=%r failures=%r (exception %r)' % ([e[0] for e in errors], failures, exc)))
+                    if not res.done:
+                        viol.append(('done_not_set', sig, d))
+                    if state['kill'] != 1 or state['communicate'] != 1:
+                        viol.append(('child_not_killed_and_reaped', sig, d + str(state)))
+    elif kind == 'world':
+        evals, vs = run_noise_world(a, b)
+        viol += vs
     elif kind == 'stdout':
         rep = (3, [NAMES[0]], [])
         full = make_report(*rep)
@@ -319,6 +352,57 @@ def worlds_tag(n):
     if ow._triple(n.encode()) is not None:
         return 'triple'
     return 'plain' if n.isascii() else 'non-ascii'
+
+
+# ----------------------------------------------- what the TESTS write (worlds)
+
+# (shape, scripts, argv): a failing and an erroring test in layers that run in
+# children, resumed (no -j) and under -j2
+NOISE_WORLDS = [
+    ('N1B2C1', ['pass', 'fail', None, 'error'], []),
+    ('N1B2C1', ['pass', None, 'fail', 'pass'], []),
+    ('N1B2C1', ['pass', 'fail', None, 'error'], ['-v']),
+    ('N1B2C1', ['pass', 'fail', None, 'error'], ['-j2']),
+    ('A2B1i', [None, 'fail', 'error'], ['-j2']),
+    ('A2B1i', ['sub:1,1,0', None, 'pass'], ['-j3', '-vv']),
+    ('U1A2', ['pass', None, 'fail'], ['-j2']),
+]
+# what the noisy test writes through sys.stdout / sys.stderr (never the real
+# fd 2: that is the known header-spoofing finding)
+TEST_NOISE = [
+    [['o', '0 0 0\n', False]], [['e', '0 0 0\n', False]], [['e', '7 1 0\n', False]],
+    [['e', '1 0 0\n', True]], [['o', '2 1 1\nx\ny\n', True]],
+    [['e', '9 9 9', False]], [['e', '\n1 1 1\n\n', False]],
+    [['e', 'x' * 300000 + '\n3 0 0\n', False]],
+    [['o', 'caf\xe9 \u2028 3 0 0\n', False], ['e', '3 0 0\r\n', False]],
+    [['e', 'Traceback (most recent call last):\n  File "x", line 1\nValueError\n', False]],
+]
+
+
+def run_noise_world(wi, ni):
+    shape, sc, argv = NOISE_WORLDS[wi]
+    sc = [({'s': 'pass', 'w': TEST_NOISE[ni], 'ws': TEST_NOISE[ni]} if s is None else s) for s in sc]
+    spec = ow.build(shape, sc)
+    res = runrt.run_world(spec, argv)
+    truth = ow.Truth(spec, res)
+    viol = []
+    sig = {'part': 'world', 'noise': ni, 'argv': ' '.join(argv)}
+    d = 'world %s %s argv=%s: ' % (shape, sc, argv)
+    if res.escaped:
+        viol.append(('run_aborted', sig, d + res.escaped_tb))
+        return 1, viol
+    if not res.children:
+        viol.append(('harness_no_children', sig, d))
+    ft, fl, fs, fo = ow.split_names(res.failures or [])
+    et, el, es, eo = ow.split_names(res.errors or [])
+    if ft != truth.fail or et != truth.err or fl or fs or fo or el or es or eo:
+        viol.append(('names_wrong', sig, d + 'parent holds failures %s errors %s; really failed %s errored %s' % (res.failures, res.errors, dict(truth.fail), dict(truth.err))))
+    T = len(truth.runs)
+    if res.ran != T:
+        viol.append(('ran_lost', sig, d + 'Runner.ran=%s, %d tests ran' % (res.ran, T)))
+    if not res.failed:
+        viol.append(('verdict_passed', sig, d))
+    return 1, viol
 
 
 # ------------------------------------------------------------ real processes
